@@ -20,7 +20,7 @@ RULE = ("seeded circuits whose nodes share NodeTemplate / OperatorTemplate objec
         "one override that addresses some but not all nodes sharing a template; distinct = distinct (spec, overrides) hash")
 DECIDING = ['arg_value_checks', 'layout_checks', 'derivatives_compared', 'sibling_circuit_checks', 'template_fingerprint_checks',
             'update_var_scalar', 'update_var_array', 'node_values', 'edge_updates', 'first_row_checks',
-            'population_updates_scalar', 'population_updates_per_unit', 'late_edges_added_in_place', 'compiled_before_updates']
+            'population_updates_scalar', 'population_updates_per_unit', 'late_edges_added_in_place', 'compiled_before_updates', 'population_sibling_checks', 'edge_template_constant_updates']
 ASSUMPTIONS = ['array values are distributed one per addressed node in declaration (path) order',
                'node_values addresses all nodes matching the node part of the path']
 CASE_TIMEOUT = 180
@@ -79,6 +79,37 @@ def run_population_case(case, ctx):
                 pre[f'{pn}/{v}'] = {'orig': orig, 'scalar': scalar}
         plan_['pre_update'] = pre
         res = c16.run_case({'cseed': case['cseed'], 'spec': plan_, 'case_risk': []}, ctx)
+    # a sibling circuit that holds the same PopulationTemplate objects and was built before the updates must not see them
+    if res.get('status') == 'ok':
+        plan2 = (case.get('spec') or plan_)
+        c16.build_population_circuit(plan2)
+        sib = getattr(c16.build_population_circuit, 'sibling', None)
+        if sib is not None:
+            try:
+                f_, a_, n_, s_ = sib.get_run_func('sib_vf', step_size=1e-3, vectorize=True, verbose=False, clear=True, in_place=False,
+                                                  float_precision='float64')
+                byname = dict(zip(n_, a_))
+                y0_ = set(np.asarray(byname['y'], dtype=float).round(10).tolist())
+                for k_, u_ in plan2['pre_update'].items():
+                    pn, v = k_.split('/')
+                    p_ = plan2['pops'][pn]
+                    final = [float(x) for x in p_['params'][v]]
+                    is_state = v in {e[1] for e in plan2['ops'][p_['op']]['eqs'] if e[0] == 'de'}
+                    if is_state:
+                        leaked = [x for x in final if round(x, 10) in y0_]
+                        if leaked:
+                            raise observe.Mismatch(f"sibling circuit holding the same PopulationTemplate object starts with the initial values "
+                                                   f"{leaked} given to the OTHER circuit through update_var({k_})")
+                    else:
+                        got = np.asarray(byname.get(f"{pn}/{p_['op']}/{v}", np.nan), dtype=float).ravel().tolist()
+                        if any(abs(g - x) < 1e-12 for g in got for x in final):
+                            raise observe.Mismatch(f"sibling circuit holding the same PopulationTemplate object carries the values {got} that "
+                                                   f"update_var({k_}) gave to the OTHER circuit")
+                res.setdefault('mech', {})['population_sibling_checks'] = 1
+            except observe.Mismatch as e:
+                res.update(status='violation', symptom='silent: ' + str(e), spec=plan2)
+            except Exception as e:
+                res.update(status='violation', symptom=f'loud: sibling population circuit raised {type(e).__name__}: {e}', spec=plan2)
     res['risk'] = []
     res['case_extra'] = {'case_risk': []}
     m = res.setdefault('mech', {})
@@ -112,6 +143,12 @@ def make_case(case, ctx):
         spec, feats, risk = gen.gen_net(rnd, pool=gen.SAFE_POOL, n_nodes=rnd.choice([2, 3, 4, 5, 6]), max_types=2,
                                         depth=depth, same_type_bias=True, forbid=ctx['excluded'],
                                         edge_density=rnd.choice([0.0, 0.2, 0.5]))
+        if want is None and depth == 0 and spec['circ'].get('edges') and rnd.random() < 0.45:
+            # some edges run through EdgeTemplates whose operator constants (possibly declared with an integer default) get
+            # per-edge values through the edge attribute dictionary, at construction and through update_var(edge_vars=...)
+            spec = gen.add_edge_templates(spec, rnd, frac=0.7, shapes=['lin', 'tanh', 'offset', 'sat'])
+            if set(gen.features(spec)[1]) & (ctx['excluded'] | open_risks('C04')):
+                continue        # (templated edges can create configurations with recorded findings of C01 / C04)
         vals = gen.Vals(rnd)
         for o in spec['ops'].values():
             for v, d in o['vars'].items():
@@ -188,7 +225,12 @@ def make_case(case, ctx):
             elif kind == 'edge' and spec['circ'].get('edges'):
                 e = rnd.choice(spec['circ']['edges'])
                 if not any(x[0] == e[0] and x[1] == e[1] for x in edge_updates):
-                    edge_updates.append([e[0], e[1], {'weight': round(vals.new() * 2, 4)}])
+                    tkeys = [k_ for k_ in e[3] if '/' in k_ and not isinstance(e[3][k_], str)]
+                    if tkeys and rnd.random() < 0.6:
+                        edge_updates.append([e[0], e[1], {rnd.choice(tkeys): round(vals.new() * 2 + 0.25, 4)}])
+                        kinds.append('edge_template_constant_updates')
+                    else:
+                        edge_updates.append([e[0], e[1], {'weight': round(vals.new() * 2, 4)}])
                     kinds.append('edge_updates')
         if not [k_ for k_ in kinds if k_ != 'int_declared_constants']:
             continue
@@ -336,7 +378,7 @@ def rebuild_from_objects(spec, objs):
         tag = c.get('__share')
         if tag is not None and tag in shared:
             return shared[tag]
-        edges = [(s, t, None, dict(a)) for s, t, et, a in c.get('edges', [])]
+        edges = [(s, t, objs['ets'][et] if et else None, dict(a)) for s, t, et, a in c.get('edges', [])]
         if c.get('subs'):
             t_ = CircuitTemplate(name=c['name'], circuits={k: circ(v) for k, v in c['subs'].items()}, edges=edges)
         else:
